@@ -60,7 +60,8 @@ def trig_config_dict(ms: Tuple[V, ...]) -> bool:
 
 
 def trig_common_base(ms: Tuple[V, ...]) -> bool:
-    return all(is_class(m) for m in ms)
+    # a generated TypedDict is a class (a subclass of dict) as far as this rewriter's documented trigger goes
+    return all(is_class(m) or RW.is_td(m) for m in ms)
 
 
 REWRITERS: List[Tuple[str, str, Dict[str, V], Any, str]] = [
